@@ -10,7 +10,7 @@ import copy
 import hashlib
 
 from .. import gen, shrink, world, common
-from ..common import Violation, mask
+from ..common import Violation, HarnessError, mask
 from ..netlist import script_shape
 from ..refsim import DoubleWrite
 
@@ -60,6 +60,13 @@ def gen_case(streams, tier):
     case['bad_init_first'] = f.choice(rams) if rams and f.random() < 0.3 else None
     if case['bad_init_first'] is not None:
         case['init']['mems'].pop(str(case['bad_init_first']), None)
+    # the design was simulated once while one of its gates was still another gate: the net is
+    # then replaced in place (same number of nets) and the design simulated for real
+    gates = [i for i, n in enumerate(script['nets']) if n['op'] in '&|^n' and stage is None]
+    case['swap'] = None
+    if gates and f.random() < 0.2:
+        i = f.choice(gates)
+        case['swap'] = {'net': i, 'old_op': f.choice([o for o in '&|^n' if o != script['nets'][i]['op']])}
     case['cycles'], hole_faults = gen.split_rom_holes(script, case['init'], case['cycles'])
     case['faults'] += hole_faults
     return case
@@ -71,7 +78,27 @@ def run(case, res):
     init = case['init']
     sched = case['sched']
     world.setup_world(sched)
-    b = world.build_dut(script, sched, stage=world.stage_with_hook(case.get('stage'), res))
+    sw = case.get('swap')
+    if sw and sw['net'] < len(script['nets']) and script['nets'][sw['net']]['op'] in '&|^n':
+        import copy as _copy
+        early = _copy.deepcopy(script)
+        early['nets'][sw['net']]['op'] = sw['old_op']
+        b = world.build_dut(early, sched)
+        blk0 = b.block
+        try:
+            s0 = pyrtl.Simulation(tracer=pyrtl.SimulationTrace('all', block=blk0), block=blk0)
+            s0.step({w.name: 0 for w in blk0.wirevector_subset(pyrtl.Input)})
+        except pyrtl.PyrtlError:
+            pass
+        dname = script['nets'][sw['net']]['d'][0]
+        old = [n for n in blk0.logic if n.dests and n.dests[0] is b.wires[dname]]
+        if len(old) != 1:
+            raise HarnessError('swap: driver not found')
+        blk0.logic.remove(old[0])
+        blk0.add_net(pyrtl.LogicNet(script['nets'][sw['net']]['op'], None, old[0].args, old[0].dests))
+        res.faults.hit('net_replaced_in_place_after_a_simulation')
+    else:
+        b = world.build_dut(script, sched, stage=world.stage_with_hook(case.get('stage'), res))
     if case.get('dut_is_working'):
         pyrtl.set_working_block(b.block, no_sanity_check=True)
     bi = case.get('bad_init_first')
@@ -231,6 +258,10 @@ def candidates(case):
     if case.get('bad_init_first') is not None:
         c = copy.deepcopy(case)
         c['bad_init_first'] = None
+        yield c
+    if case.get('swap'):
+        c = copy.deepcopy(case)
+        c['swap'] = None
         yield c
     if case.get('second_instance'):
         c = copy.deepcopy(case)
